@@ -27,6 +27,17 @@ def run(ctx):
         bad = [int(x) for x in re.findall(r'(-?\d+)%Z', ev)] if rc2 == 0 else []
     except Exception:
         bad = []
+    # documented forms without an arm of the same shape
+    try:
+        rc3, ev3 = vlib.coq_eval('C06', 'From Coq Require Import List NArith ZArith Floats String.\nImport ListNotations.\nFrom SCAD Require Import Macro.Syntax Macro.Check Gen.MacroArms.',
+                                 'map (fun d => snd (fst d)) (filter (fun d => negb (doc_has_arm macro_arms d)) macro_doc_forms)')
+        orphan = re.findall(r'"((?:[^"]|"")*)"%string|"((?:[^"]|"")*)"', ev3) if rc3 == 0 else []
+        orphan = [a or b for a, b in orphan]
+    except Exception:
+        orphan = []
+    for dtxt in orphan:
+        failures.append({'clause': 'documented_form_has_an_arm', 'key': 'doc:' + dtxt[:60], 'documented_form': dtxt,
+                         'what': 'no macro arm of that macro accepts this documented form (same positional arguments, keywords, vectors and children): writing it as documented does not compile or builds something else'})
     for k in bad:
         case = next((c for c in M if re.match(r'\((\d+)%nat', c) and int(re.match(r'\((\d+)%nat', c).group(1)) == k), '')
         failures.append({'clause': 'arm_denotes_its_documented_form_once', 'key': 'badarm%d' % k, 'arm_index': k, 'arm': arm_text(k),
